@@ -221,6 +221,21 @@ func (c *c18ctx) judgeEqual(ident, lhs, rhs string, m coreMode, ei int, cmpLog b
 	return true
 }
 
+// the property quantifies over ARRAYS: a collection expression whose value is something else (the generator writes a
+// map or a scalar in an array position now and then) is outside it - e.g. untyped `count(MI, {true})` counts the
+// entries of a map while `filter(MI, ...)` cannot build its result
+func (c *c18ctx) notArray(xs string, ei int) bool {
+	r, ok := c.run(xs, modeUntyped, ei)
+	if !ok || r.err != nil {
+		return false
+	}
+	if r.out == nil {
+		return true
+	}
+	k := reflect.ValueOf(r.out).Kind()
+	return k != reflect.Slice && k != reflect.Array
+}
+
 func (c *c18ctx) lenOf(xs string, ei int) int {
 	r, ok := c.run("len("+xs+")", modeUntyped, ei)
 	if !ok || r.err != nil {
@@ -260,6 +275,10 @@ func c18itemsEq(a, b []interface{}) bool {
 func (c *c18ctx) predicateIdentities(xs, p string, envIdx []int) {
 	for _, m := range c18Modes {
 		for _, ei := range envIdx {
+			if c.notArray(xs, ei) {
+				c.rep.hist("collection is not an array (outside the property): skipped")
+				continue
+			}
 			n := c.lenOf(xs, ei)
 			nt := n > 0
 			mark := func(id string, ran bool) {
@@ -430,6 +449,10 @@ func (c *c18ctx) lenMap(xs, f string, envIdx []int) {
 	lhs, rhs := "len(map("+xs+", {"+f+"}))", "len("+xs+")"
 	for _, m := range c18Modes {
 		for _, ei := range envIdx {
+			if c.notArray(xs, ei) {
+				c.rep.hist("collection is not an array (outside the property): skipped")
+				continue
+			}
 			l, lok := c.run(lhs, m, ei)
 			r, rok := c.run(rhs, m, ei)
 			c.rep.Evaluations++
